@@ -4,7 +4,88 @@ MODULE = 'outrank/core_ranking.py'
 ARGS_CAP = {'__class__': 'args', 'combination_number_upper_bound': 'int'}
 CL = ['cnt_opaque_Comb_bounds', 'cnt_opaque_Comb_absent', 'cnt_opaque_Comb_present', 'cnt_opaque_Comb_distinct']
 
+ARGS_COMB = {'__class__': 'args', 'heuristic': 'str', 'combination_number_upper_bound': 'int', 'label_column': 'str',
+             'target_ranking_only': 'str'}
+_IN = lambda a, b: f'any(result[m][0] == {a} and result[m][1] == {b} for m in range(len(result)))'
+_EITHER = lambda a, b: f'({_IN(a, b)} or {_IN(b, a)})'
+_COL = lambda x: f'({x} in all_columns)'
+_REL = lambda x: f'(" AND_REL " in {x})'
+
 CONTRACTS = {
+    'get_combinations_from_columns': dict(
+        strings='opaque',
+        params={'all_columns': 'list[str]', 'args': ARGS_COMB},
+        modifies=['param:args'],
+        requires=[
+            ('distinct_names', 'all(all_columns[i] != all_columns[j] for j in range(len(all_columns)) for i in range(j))'),
+            ('label_present', 'args.label_column in all_columns'),
+            ('cap', 'args.combination_number_upper_bound >= 0'),
+        ],
+        returns='list[tuple[str,str]]',
+        summarize={
+            'rel_columns =': dict(var='rel_columns', facts=[
+                ('sound', 'all((" AND_REL " in rel_columns[k]) and (rel_columns[k] in all_columns) for k in range(len(rel_columns)))'),
+                ('complete', 'all(implies(" AND_REL " in all_columns[i], all_columns[i] in rel_columns) for i in range(len(all_columns)))'),
+            ]),
+            'non_rel_columns =': dict(var='non_rel_columns', facts=[
+                ('sound', 'all(not (" AND_REL " in non_rel_columns[k]) and (non_rel_columns[k] in all_columns) '
+                          'for k in range(len(non_rel_columns)))'),
+                ('complete', 'all(implies(not (" AND_REL " in all_columns[i]), all_columns[i] in non_rel_columns) '
+                             'for i in range(len(all_columns)))'),
+            ]),
+            'combinations = list(itertools.combinations_with_replacement(non_rel_columns': dict(var='combinations', facts=[
+                ('sound', 'all((combinations[m][0] in non_rel_columns) and (combinations[m][1] in non_rel_columns) '
+                          'for m in range(len(combinations)))'),
+                ('complete', 'all(any(combinations[m][0] == non_rel_columns[p] and combinations[m][1] == non_rel_columns[q] '
+                             'for m in range(len(combinations))) or any(combinations[m][0] == non_rel_columns[q] and '
+                             'combinations[m][1] == non_rel_columns[p] for m in range(len(combinations))) '
+                             'for p in range(len(non_rel_columns)) for q in range(len(non_rel_columns)))'),
+            ]),
+            'combinations += [(column, args.label_column)': dict(var='combinations', facts=[
+                ('sound', 'all(((combinations[m][0] in non_rel_columns) and (combinations[m][1] in non_rel_columns)) or '
+                          '((combinations[m][0] in rel_columns) and combinations[m][1] == args.label_column) '
+                          'for m in range(len(combinations)))'),
+                ('complete', 'all(any(combinations[m][0] == non_rel_columns[p] and combinations[m][1] == non_rel_columns[q] '
+                             'for m in range(len(combinations))) or any(combinations[m][0] == non_rel_columns[q] and '
+                             'combinations[m][1] == non_rel_columns[p] for m in range(len(combinations))) '
+                             'for p in range(len(non_rel_columns)) for q in range(len(non_rel_columns)))'),
+                ('relations', 'all(any(combinations[m][0] == rel_columns[k] and combinations[m][1] == args.label_column '
+                              'for m in range(len(combinations))) for k in range(len(rel_columns)))'),
+            ]),
+        },
+        ensures=[
+            # every row mentions only columns of the batch's feature space
+            ('names_in_space', f'all({_COL("result[m][0]")} and {_COL("result[m][1]")} for m in range(len(result)))'),
+            # target-only, non-3mr: exactly every feature paired with the label (label-label included)
+            ('target_only_covers', 'implies(not ("3mr" in args.heuristic) and args.target_ranking_only == "True", '
+                                   f'all({_EITHER("all_columns[i]", "args.label_column")} for i in range(len(all_columns))))'),
+            ('target_only_exact', 'implies(not ("3mr" in args.heuristic) and args.target_ranking_only == "True", '
+                                  'all(result[m][0] == args.label_column or result[m][1] == args.label_column '
+                                  'for m in range(len(result))))'),
+            # pairwise, non-3mr: every unordered pair of columns, each column with itself included
+            ('pairwise_covers', 'implies(not ("3mr" in args.heuristic) and args.target_ranking_only != "True", '
+                                f'all({_EITHER("all_columns[i]", "all_columns[j]")} for i in range(len(all_columns)) '
+                                'for j in range(len(all_columns))))'),
+            # 3mr: every unordered pair of non-relation columns (with itself), relation columns with the label only
+            ('mr3_covers', 'implies("3mr" in args.heuristic, '
+                           f'all(implies(not {_REL("all_columns[i]")} and not {_REL("all_columns[j]")}, '
+                           f'{_EITHER("all_columns[i]", "all_columns[j]")}) for i in range(len(all_columns)) '
+                           'for j in range(len(all_columns))))'),
+            ('mr3_relations_with_label', 'implies("3mr" in args.heuristic, '
+                                         f'all(implies({_REL("all_columns[i]")}, {_IN("all_columns[i]", "args.label_column")}) '
+                                         'for i in range(len(all_columns))))'),
+            ('mr3_relations_label_only', 'implies("3mr" in args.heuristic, '
+                                         f'all(implies({_REL("result[m][0]")} or {_REL("result[m][1]")}, '
+                                         f'{_REL("result[m][0]")} and result[m][1] == args.label_column) '
+                                         'for m in range(len(result))))'),
+            ('mr3_cap', 'implies("3mr" in old(args.heuristic), args.combination_number_upper_bound == '
+                        'min2(old(args.combination_number_upper_bound), 10**4)) and '
+                        'implies(not ("3mr" in old(args.heuristic)), args.combination_number_upper_bound == '
+                        'old(args.combination_number_upper_bound))'),
+            ('args_frame', 'args.heuristic == old(args.heuristic) and args.label_column == old(args.label_column) and '
+                           'args.target_ranking_only == old(args.target_ranking_only)'),
+        ],
+    ),
     'prior_combinations_sample': dict(
         params={'combinations': 'list[Comb]', 'args': ARGS_CAP},
         globals={'GLOBAL_PRIOR_COMB_COUNTS': 'counter[Comb]'},
